@@ -13,8 +13,10 @@ meta = json.load(open(os.path.join(src, "meta.json")))
 checks = open("/tmp/seedproc/%s.checks.log" % sid).read()
 m = re.search(r"FIRED: (\{.*\})", checks, re.S)
 fired = json.loads(m.group(1)) if m else {}
-confirm = open("/tmp/seedproc/%s.confirm.log" % sid).read()
-res = [l for l in confirm.splitlines() if l.startswith("RESULT")]
+import glob
+res = []
+for f in sorted(glob.glob("/tmp/seedproc/%s.confirm*.log" % sid)):
+    res += [l for l in open(f).read().splitlines() if l.startswith("RESULT")]
 out = {
     "property": meta.get("property", sid[:3]),
     "author": "fresh sub-agent given only the property text and a scratch worktree",
@@ -25,7 +27,7 @@ out = {
     "agent_reported": {k: v for k, v in meta.items() if k.startswith("demo_") and k != "demo_cmd" or k.startswith("baseline")},
     "confirmed_by_me": {
         "how": "tools/confirm_seed.sh: fresh worktree of /repo HEAD; demo.diff applied -> demo_cmd must pass; patch.diff applied -> demo_cmd must fail; cargo build --workspace --offline; pinned baseline (tools/baseline.sh) with the patch; tests missing from the baseline rerun alone 3x",
-        "result": res[-1] if res else "MISSING",
+        "result": res if res else "MISSING",
     },
     "checks_run": "tools/run_seed.py: git -C /repo apply patch.diff; ./verif check C01..C20 (quick); git -C /repo checkout -- .",
     "checks_fired": fired,
